@@ -434,6 +434,18 @@ pub fn nopanic_id(x: felt252) -> felt252 nopanic {
     x
 }
 
+// declares implicits that neither its body nor a callee uses (kept in a signature for stability): they are part
+// of the function's signature all the same
+#[inline(never)]
+pub fn declared_implicit(x: u128) -> u128 implicits(core::RangeCheck) nopanic {
+    x
+}
+
+#[inline(never)]
+pub fn declared_implicits2(x: felt252) -> felt252 implicits(core::pedersen::Pedersen, core::integer::Bitwise) nopanic {
+    x
+}
+
 pub fn first(a: @Array<u32>) -> u32 {
     *a.at(0)
 }
@@ -661,6 +673,8 @@ FEATURES = [
      "comp::may_panic(5).into() + comp::nopanic_id(2)"),
     ("snap_box", "snapshot_box", "use vlib::comp; use vlib::Point;",
      "(comp::first(@array![4, 5]) + comp::boxed(BoxTrait::new(Point { x: 6, y: 7 })) + comp::snap_match(@Point { x: 2, y: 3 })).into()"),
+    ("declared_implicits", "signature", "use vlib::comp;",
+     "comp::declared_implicit(7).into() + comp::declared_implicits2(3)"),
     ("early_return", "error_propagation", "use vlib::comp;",
      "(comp::early(array![3]).unwrap() + comp::let_else(None) + comp::let_else(Some(2))).into()"),
     ("value_match", "match_value", "use vlib::comp;",
